@@ -921,6 +921,12 @@ type c11Scenario struct {
 // one library scenario: a primer pair, an option set, a few templates built around planted products
 func c11MakeScenario(rng *rand.Rand, big bool) c11Scenario {
 	lf, lr := 18+rng.Intn(8), 18+rng.Intn(8)
+	switch rng.Intn(10) {
+	case 0:
+		lf = 33 + rng.Intn(30) // beyond one 32-bit word of the matching automaton (64 symbols are allowed)
+	case 1:
+		lr = 33 + rng.Intn(30)
+	}
 	fwd, rev := c11RandPrimer(rng, lf), c11RandPrimer(rng, lr)
 	p := c11Params{F: fwd, R: rev, Ef: rng.Intn(4), Er: rng.Intn(4)}
 	if rng.Intn(3) == 0 {
